@@ -108,6 +108,18 @@ def gen_library(rng):
                 if f["suffix"]:
                     f["suffix"] = "%s%d" % (f["suffix"], k)
                 d["format"]["function_suffix"] = f["suffix"]
+        # an explicit suffix that spells the default numbering (the user pins the name of ONE member of an overload set): the other
+        # members keep the number of their position, so every name stays distinct
+        byname = collections.defaultdict(list)
+        for f, d in fs:
+            byname[f["name"]].append((f, d))
+        for nm, grp in byname.items():
+            if (len(grp) > 1 and all(f["ndef"] == 0 and not f["tmpl"] and not f["generic"] and f["suffix"] is None for f, _ in grp)
+                    and rng.random() < 0.4):
+                i = rng.randrange(len(grp) - 1)
+                f, d = grp[i]
+                f["suffix"] = "_%d" % i
+                d.setdefault("format", {})["function_suffix"] = f["suffix"]
         if not fs:
             continue
         if kind == "global":
